@@ -1626,6 +1626,14 @@ fn forward_device_data(
         len
     );
 
+    // update the state of shared subscription. The publishes have been handed to this
+    // member, so the group moves on even when the outgoing buffer is now full
+    if let Some(share) = shared_group {
+        share.update_next_client();
+        // update the shared cursor
+        share.cursor = request.cursor;
+    }
+
     if len >= MAX_CHANNEL_CAPACITY - 1 {
         debug!("Outgoing channel reached its capacity");
         outgoing.push_notification(Notification::Unschedule);
@@ -1634,13 +1642,6 @@ fn forward_device_data(
     }
 
     outgoing.handle.try_send(()).ok();
-
-    // update the state of shared subscription
-    if let Some(share) = shared_group {
-        share.update_next_client();
-        // update the shared cursor
-        share.cursor = request.cursor;
-    }
 
     if caughtup {
         ConsumeStatus::FilterCaughtup
